@@ -15,6 +15,8 @@ C03 — Whatever a node emits passes the network's own validation and size limit
   (`WgIgnoresCoordinatedFields`; true of the production generators — and necessary, see `stamp_breaks_workid`).
 * `chain_valid`: by induction over rounds, every outcome of every chain `outcome_k → observation_{k+1} → outcome_{k+1}` is valid
   and every observation built on it is valid: the next round always decodes.
+* `runs_valid`: the same when rounds are lost and run again on the same previous outcome (`runs`); `outcome_reevaluated`:
+  evaluating a round again gives the same outcome whatever was computed from that previous outcome in between.
 * `outcome_fits`: length bound from per-item bounds with the regenerated constants.
 * `reports_count_le_max` (via C04), `observation_quorum_iff`.
 
@@ -250,6 +252,50 @@ theorem chain_valid (ctx : Ctx) (lim : Limits) (hwg : WgIgnoresCoordinatedFields
     · exact ⟨hv, fun maxLen v hw inflight inflightP lc cc si hl hc =>
         observe_valid ctx lim maxLen (some _) v hw inflight inflightP lc cc si hl hc⟩
     · exact chain_valid ctx lim hwg hrh rs _ hv o ho
+
+/-- **Lost rounds.**  When a round does not commit (leader change, timeout, lost messages) libocr runs the next one on the SAME
+previous outcome, which every node has decoded and worked on before.  Every outcome of every such run — of committed and
+of lost rounds alike — is valid, and every observation a well-formed node builds on it is valid. -/
+theorem runs_valid (ctx : Ctx) (lim : Limits) (hwg : WgIgnoresCoordinatedFields ctx) (hrh : 1 ≤ lim.roundHistory) :
+    ∀ (rounds : List (RoundIn × Bool)) (init : Outcome), validOutcome ctx lim init = true →
+      ∀ o ∈ runs ctx lim init rounds,
+        validOutcome ctx lim o = true ∧
+        ∀ (maxLen : Nat) (v : NodeView), WellFormedNode ctx v →
+          ∀ (inflight : CheckResult → Bool) (inflightP : Proposal → Bool) (lc cc : List Proposal) (si : SizeInfo),
+            ChoiceOf lim.obsLogProposals (available (preBuild ctx o v).logProps inflightP) lc →
+            ChoiceOf lim.obsCondProposals (available (preBuild ctx o v).condProps inflightP) cc →
+            validObservation ctx lim (observe ctx lim maxLen (some o) v inflight lc cc si) = true
+  | [], _, _, o, ho => by simp [runs] at ho
+  | (r, c) :: rs, init, hinit, o, ho => by
+    simp only [runs, List.mem_cons] at ho
+    have hv := outcome_valid ctx lim hwg hrh init hinit r.obs r.πres r.πblk
+    rcases ho with rfl | ho
+    · exact ⟨hv, fun maxLen v hw inflight inflightP lc cc si hl hc =>
+        observe_valid ctx lim maxLen (some _) v hw inflight inflightP lc cc si hl hc⟩
+    · cases c
+      · exact runs_valid ctx lim hwg hrh rs init hinit o (by simpa using ho)
+      · exact runs_valid ctx lim hwg hrh rs _ hv o (by simpa using ho)
+
+/-- when every round commits, the runs are the chain -/
+theorem runs_all_commit (ctx : Ctx) (lim : Limits) :
+    ∀ (rs : List RoundIn) (init : Outcome), runs ctx lim init (rs.map (fun r => (r, true))) = chain ctx lim init rs
+  | [], _ => rfl
+  | r :: rs, init => by simp [runs, chain, runs_all_commit ctx lim rs]
+
+/-- **Evaluating again.**  A lost round followed by a round with the same inputs (or: `Outcome` evaluated once more on a
+node) yields the same outcome, whatever was computed from that previous outcome in between: `outcome` is a function of
+the round's inputs and nothing else.  This is what the harness's `again` evaluations and lost rounds are compared with. -/
+theorem outcome_reevaluated (ctx : Ctx) (lim : Limits) (prev : Outcome) (r : RoundIn) (between : List RoundIn) (c : Bool) :
+    (runs ctx lim prev ((r, false) :: between.map (fun b => (b, false)) ++ [(r, c)])).getLast? =
+      (runs ctx lim prev [(r, false)]).head? := by
+  have aux : ∀ (l : List RoundIn) (x : Outcome),
+      (x :: runs ctx lim prev (l.map (fun b => (b, false)) ++ [(r, c)])).getLast? =
+        some (outcome ctx lim prev r.obs r.πres r.πblk) := by
+    intro l
+    induction l with
+    | nil => intro x; simp [runs]
+    | cons b bs ih => intro x; simpa [runs] using ih _
+  simpa [runs] using aux between _
 
 /-! ### sizes and counts -/
 
